@@ -274,7 +274,7 @@ func (bf *BinaryField[T]) Add(a ...T) T {
 	vres := bf.api.Add(va[0], va[1], va[2:]...)
 	maxBitlen := bits.Len(uint(inLen)) + tLen
 	// bitslice.Partition below checks that the input is less than 2^maxBitlen and that we have omitted carry correctly
-	vreslow, _ := bitslice.Partition(bf.api, vres, uint(tLen), bitslice.WithNbDigits(maxBitlen), bitslice.WithUnconstrainedOutputs())
+	vreslow, _ := bitslice.Partition(bf.api, vres, uint(tLen), bitslice.WithNbDigits(maxBitlen))
 	res := bf.ValueOf(vreslow)
 	return res
 }
